@@ -16,7 +16,7 @@ RULE = (
     "zeros in the stripped coordinate, negative entries and 6 orders of magnitude. evaluations = A+B+C; distinct_nontrivial = distinct (model "
     "kind, dimension, sources, monitor) cells with |mean xi| > 1e-3 before the call (A) or a non-trivial mixing matrix (B)"
 )
-REQUIRED = {"recentre_calls": 300, "recentre_in_fit": 100, "ortho_states": 300, "ortho_direct": 300, "recentre_joint": 20, "ortho_shared_speed": 20, "two_event_joint_cases": 2}
+REQUIRED = {"recentre_calls": 300, "recentre_in_fit": 100, "ortho_states": 300, "ortho_direct": 300, "recentre_joint": 20, "ortho_shared_speed": 20, "two_event_joint_cases": 2, "states_after_a_rejected_trial_move": 20}
 ASSUMPTIONS = [
     "float32 exp/log round trip: trajectories compared at 1e-5 absolute, attachment terms at 1e-5 relative (+1e-5 absolute); orthogonality "
     "residual judged relative to |a| |G d| at 1e-5 (measured 4e-8 on the unchanged tree)",
@@ -216,6 +216,28 @@ def run_shard(spec, ctx):
                 st["xi"] = st["xi"] * float(rng.uniform(0.2, 2.0)) + float(rng.uniform(-3, 3))
                 if "sources" in model.individual_variables_names:
                     st["sources"] = torch.tensor(rng.uniform(-3, 3, size=tuple(st["sources"].shape)), dtype=st["sources"].dtype)
+            if (spec["k"] + i) % 2 == 0:
+                # the state has just been assigned (nothing derived is evaluated yet): a rejected trial move - assign under fork, evaluate, revert -
+                # as a sampler does, must leave no trace in what is judged below
+                from leaspy.variables.state import StateForkType
+
+                try:
+                    for tv_, delta in (("log_v0", 0.7), ("xi", 0.37)):
+                        if tv_ in set(st.dag.sorted_variables_names):
+                            with st.auto_fork(StateForkType.REF):
+                                st[tv_] = st[tv_] + delta
+                                for n_ in GAUGE_NODES + ("mixing_matrix", "space_shifts"):
+                                    if n_ in set(st.dag.sorted_variables_names):
+                                        try:
+                                            st[n_]
+                                        except Exception:
+                                            pass
+                                st.revert()
+                    ctx.count("states_after_a_rejected_trial_move")
+                    current_case["after_rejected_trial_moves"] = True
+                except Exception as e:
+                    ctx.count("trial_move_skipped")
+                    ctx.note(f"trial_move_skipped_{type(e).__name__}", str(e)[:160])
             if src >= 1:
                 _judge_ortho(ctx, st.clone(), g, dict(current_case))
             cls = type(model)
